@@ -3,7 +3,7 @@ CONSTANTS
   Sizes = {0, 1, 3, 4095, 4096, 4097, 8192, 10000}
   MaxLen = 2
   Thresholds = {0, 1, 4096, 100000}
-  Alignments = {0, 1, 4096, 8192}
+  Alignments = {0, 1, 4096, 12288}
   AlignThresholds = {0, 4096}
   Limits = {0, 1, 4096, 8193, 100000}
   Backends = {"raw", "st"}
